@@ -62,3 +62,82 @@ Check c06_hook_is_call_verbatim :
   gen_call_body = gen_call_generic_body /\ gen_connect_client = gen_hook_client /\
   gen_call_body <> "<missing>"%string /\ gen_connect_client <> [].
 Print Assumptions c06_hook_is_call_verbatim.
+
+(* ---- the wire of a whole session, end to end (E2EWrite.v: the theorem above composed with C11's tag theorems and
+   C10's single-line theorems).  issue 0 args = the commands with the tags A0001, A0002, ... of their own calls;
+   sub = "is a subsequence of" (a stream dropped before its command reached the codec leaves a gap in the tags). *)
+From TI Require Import Machine BuilderLines E2EWrite.
+From TI.gen Require Import BuilderTables.
+Theorem c06_session_commands : forall ops t c' started outs,
+  session ops (client_init t) = (c', started, outs) ->
+  N.of_nat (length ops) <= 10000 ->
+  Forall (fun a => ~ In 13 a /\ ~ In 10 a) (map fst ops) ->
+  exists issued,
+    io_wire (c_io c') ++ c_wbuf c' = io_wire t ++ List.concat (map line issued) /\
+    sub issued (issue 0 (map fst ops)) /\
+    NoDup (map fst issued) /\
+    Forall (fun p => exists body, line p = body ++ [13; 10] /\ ~ In 13 body /\ ~ In 10 body) issued.
+Proof. exact session_commands_lemma. Qed.
+Check c06_session_commands : forall ops t c' started outs,
+  session ops (client_init t) = (c', started, outs) ->
+  N.of_nat (length ops) <= 10000 ->
+  Forall (fun a => ~ In 13 a /\ ~ In 10 a) (map fst ops) ->
+  exists issued,
+    io_wire (c_io c') ++ c_wbuf c' = io_wire t ++ List.concat (map line issued) /\
+    sub issued (issue 0 (map fst ops)) /\
+    NoDup (map fst issued) /\
+    Forall (fun p => exists body, line p = body ++ [13; 10] /\ ~ In 13 body /\ ~ In 10 body) issued.
+Print Assumptions c06_session_commands.
+
+(* the same with nothing assumed about the arguments when every command comes out of a builder chain of the
+   regenerated typestate tables *)
+Theorem c06_built_session : forall ops t c' started outs,
+  session ops (client_init t) = (c', started, outs) ->
+  N.of_nat (length ops) <= 10000 ->
+  Forall built (map fst ops) ->
+  exists issued,
+    io_wire (c_io c') ++ c_wbuf c' = io_wire t ++ List.concat (map line issued) /\
+    sub issued (issue 0 (map fst ops)) /\
+    NoDup (map fst issued) /\
+    Forall (fun p => exists body, line p = body ++ [13; 10] /\ ~ In 13 body /\ ~ In 10 body) issued.
+Proof. exact built_session_lemma. Qed.
+Check c06_built_session : forall ops t c' started outs,
+  session ops (client_init t) = (c', started, outs) ->
+  N.of_nat (length ops) <= 10000 ->
+  Forall built (map fst ops) ->
+  exists issued,
+    io_wire (c_io c') ++ c_wbuf c' = io_wire t ++ List.concat (map line issued) /\
+    sub issued (issue 0 (map fst ops)) /\
+    NoDup (map fst issued) /\
+    Forall (fun p => exists body, line p = body ++ [13; 10] /\ ~ In 13 body /\ ~ In 10 body) issued.
+Print Assumptions c06_built_session.
+
+Local Open Scope string_scope.
+Local Open Scope list_scope.
+Theorem c06_built_session_example :
+  let a1 := run_chain gen_machine "login" [AStr (bs "u"); AStr (bs "p""\")] [] in
+  let a2 := run_chain gen_machine "uid_fetch" []
+              [("range", [ARange 2 4]); ("num", [ANum 7]); ("attr", [AKw "Attribute::Flags"]); ("attr", [AKw "Attribute::Uid"]);
+               ("changed_since", [ANum 9])] in
+  exists x1 n1 x2 n2, a1 = Some (x1, n1) /\ a2 = Some (x2, n2) /\
+    let t := mk_io [] [WAccept 3; WNotReady; WAccept 10; WAccept 100; WAccept 100] [FOk; FOk; FOk] [] in
+    match session [(x1, 2%nat); (x2, 4%nat)] (client_init t) with
+    | (c', started, outs) =>
+      length started = 2%nat /\
+      io_wire (c_io c') = bs "A0001 LOGIN ""u"" ""p\""\\""" ++ [13; 10] ++ bs "A0002 UID FETCH 2:4,7 (FLAGS UID) (CHANGEDSINCE 9)" ++ [13; 10]
+    end.
+Proof. exact built_session_example. Qed.
+Check c06_built_session_example :
+  let a1 := run_chain gen_machine "login" [AStr (bs "u"); AStr (bs "p""\")] [] in
+  let a2 := run_chain gen_machine "uid_fetch" []
+              [("range", [ARange 2 4]); ("num", [ANum 7]); ("attr", [AKw "Attribute::Flags"]); ("attr", [AKw "Attribute::Uid"]);
+               ("changed_since", [ANum 9])] in
+  exists x1 n1 x2 n2, a1 = Some (x1, n1) /\ a2 = Some (x2, n2) /\
+    let t := mk_io [] [WAccept 3; WNotReady; WAccept 10; WAccept 100; WAccept 100] [FOk; FOk; FOk] [] in
+    match session [(x1, 2%nat); (x2, 4%nat)] (client_init t) with
+    | (c', started, outs) =>
+      length started = 2%nat /\
+      io_wire (c_io c') = bs "A0001 LOGIN ""u"" ""p\""\\""" ++ [13; 10] ++ bs "A0002 UID FETCH 2:4,7 (FLAGS UID) (CHANGEDSINCE 9)" ++ [13; 10]
+    end.
+Print Assumptions c06_built_session_example.
+
